@@ -21,6 +21,22 @@ class _Return(Exception):
         self.value = value
 
 
+class Raised:
+    """Result of a run that ends in a (modelled) Python exception."""
+
+    def __init__(self, kind):
+        self.kind = kind
+
+    def __eq__(self, o):
+        return isinstance(o, Raised) and o.kind == self.kind
+
+    def __hash__(self):
+        return hash(('raised', self.kind))
+
+    def __repr__(self):
+        return f'raises {self.kind}'
+
+
 class Opaque:
     """A value the evaluator does not model (an unknown call result)."""
 
@@ -51,6 +67,8 @@ class Evaluator:
             self.block(self.fn.body, env)
         except _Return as r:
             return r.value
+        except _Raise as e:
+            return Raised(e.kind)
         return None
 
     def block(self, stmts, env):
@@ -129,7 +147,7 @@ class Evaluator:
         elif isinstance(t, (ast.Tuple, ast.List)):
             vals = list(v)
             if len(vals) != len(t.elts):
-                raise AnalysisError('tuple assignment arity')
+                raise _Raise('ValueError')
             for a, b in zip(t.elts, vals):
                 self.assign(a, b, env)
         elif isinstance(t, ast.Attribute) and isinstance(t.value, ast.Name) and isinstance(env.get(t.value.id), Record):
@@ -291,6 +309,15 @@ class Evaluator:
                 return getattr(v, e.attr)
             raise AnalysisError(f'unsupported attribute access {text(e)}')
         if isinstance(e, ast.Call):
+            try:
+                return self._call(e, env)
+            except (TypeError, ValueError, IndexError, KeyError, AttributeError, UnicodeError) as ex:
+                # the modelled operation itself raises, as it would at run time
+                raise _Raise(type(ex).__name__)
+        raise AnalysisError(f'unsupported expression in decision procedure: {text(e)[:60]}')
+
+    def _call(self, e, env):
+        if True:
             f = e.func
             if isinstance(f, ast.Name) and f.id == 'isinstance' and len(e.args) == 2:
                 v = self.expr(e.args[0], env)
@@ -334,6 +361,8 @@ class Evaluator:
                     return getattr(recv, f.attr)(*args, **kwargs)
                 if self.model_types and isinstance(recv, self.model_types) and callable(getattr(recv, f.attr, None)):
                     return getattr(recv, f.attr)(*args, **kwargs)
+                if isinstance(recv, (str, bytes, int, float, tuple, list, dict, type(None))) and not hasattr(recv, f.attr):
+                    raise _Raise('AttributeError')
                 raise AnalysisError(f'call of unmodelled method {d}')
         raise AnalysisError(f'unsupported expression in decision procedure: {text(e)[:60]}')
 
